@@ -61,7 +61,7 @@ INVS = ("Inv_C12_Wait", "Inv_C12_Fire", "Inv_C12_Second", "Inv_C12_Oracle", "Typ
 VARIANT_CFGS = {        # cfg suffix -> the mistake it switches on
     "max": "max_instead_of_min", "none": "none_ignores_timers", "synth": "synthetic_not_forced", "pop": "pop_strict",
     "eintr": "eintr_restarts_timeout", "far": "far_saturates_to_now", "disabled": "disabled_still_polled",
-    "closedping": "closed_ping_stays", "chan": "chan_closed_renotifies",
+    "closedping": "closed_ping_stays", "chan": "chan_closed_renotifies", "bsnow": "deadline_from_dispatch_start",
 }
 TO_NAME = {0: "0", 30: "S", 300: "L", -1: "None"}
 
@@ -79,11 +79,11 @@ def scenario_of(c):
     """one exported configuration (milliseconds, -1 = Infinity) -> scenario line of drive_timeout (microseconds)"""
     tms = sorted(c["tm"], key=lambda t: (t["d"] if t["d"] >= 0 or t["n"] == "neg" else 10 ** 9, t["n"]))
     sid = "to%s_t[%s]_s[%s]_w%s_i%d" % (TO_NAME.get(c["to"], str(c["to"])), "+".join(t["n"] for t in tms) or "-",
-                                       "ALL" if len(c["src"]) == 7 else "+".join(sorted(c["src"])) or "-", c["wake"], c["intr"])
+                                       "ALL" if len(c["src"]) == 8 else "+".join(sorted(c["src"])) or "-", c["wake"], c["intr"])
     return {"id": sid, "to_us": -1 if c["to"] < 0 else c["to"] * 1000,
             "timers": [{"n": t["n"], "d_us": 0 if t["n"] == "far" else t["d"] * 1000, "far": 1 if t["n"] == "far" else 0} for t in tms],
             "src": sorted(c["src"]), "wake": c["wake"], "wk_us": c["wk"] * 1000, "intr": c["intr"], "ik_us": c["ik"] * 1000,
-            "s2_us": c["s2"] * 1000, "guard_us": GUARD_US,
+            "s2_us": c["s2"] * 1000, "guard_us": GUARD_US, "bs_us": c.get("bs", 0) * 1000 or 50000,
             "exp": {"W_ms": c["W"], "fire": sorted(c["fire"]), "cbs": sorted(c["cbs"]), "removed": sorted(c["removed"]),
                     "W2_ms": c["W2"], "fire2": sorted(c["fire2"])}}
 
@@ -91,13 +91,13 @@ def scenario_of(c):
 # a second scale for the thorough tier: the same configurations (the oracle only depends on the ORDER of the values) with
 # durations that are not whole milliseconds -- a wait rounded down to a millisecond would end before the deadline and the
 # limiting timer would not fire in that dispatch (a decisive clause, no tolerance involved)
-ODD_US = {0: 0, -5: -1900, 5: 2100, 10: 4200, 30: 12700, 60: 24500, 100: 40900, 300: 120300, 400: 160100}
+ODD_US = {0: 0, -5: -1900, 5: 2100, 10: 4200, 30: 12700, 50: 20300, 60: 24500, 100: 40900, 300: 120300, 400: 160100}
 
 
 def rescale(s):
     t = json.loads(json.dumps(s))
     t["id"] = s["id"] + "@odd"
-    for k in ("to_us", "wk_us", "ik_us", "s2_us"):
+    for k in ("to_us", "wk_us", "ik_us", "s2_us", "bs_us"):
         if t[k] >= 0:
             t[k] = ODD_US[t[k] // 1000]
     for tm in t["timers"]:
@@ -141,7 +141,7 @@ def quick_subset(scns, seed, budget=QUICK_BUDGET_S):
             core.append(s)                                                   # timeout x timers: the heart of C12
         elif plain and tn(s) in {(), ("mid",)}:
             core.append(s)                                                   # every source kind, alone and all together
-        elif s["wake"] != "none" and s["to_us"] in (-1, 300000) and tn(s) in small and len(s["src"]) in (0, 1, 7):
+        elif s["wake"] != "none" and s["to_us"] in (-1, 300000) and tn(s) in small and len(s["src"]) in (0, 1, 8):
             core.append(s)
         elif s["intr"] and tn(s) in small:
             core.append(s)
